@@ -20,6 +20,25 @@ def main():
         if not os.path.isdir(d) or (want and not any(name.startswith(w) for w in want)):
             continue
         meta = json.load(open(os.path.join(d, "meta.json")))
+        if meta.get("expect") == "silent":
+            # negative control: the property still holds, every listed check must stay silent
+            p = subprocess.run([os.path.join(VERIF, "tools", "mutant.py"), d, "--props", ",".join(meta["checks"])], capture_output=True, text=True)
+            try:
+                r = json.loads(p.stdout)
+            except Exception:
+                r = {"error": (p.stdout + p.stderr)[-500:]}
+            exits = {k: v.get("exit") for k, v in r.get("checks", {}).items()}
+            results[name] = {
+                "negative_control": True,
+                "tests_passed": r.get("tests_passed"),
+                "tests_failed": r.get("tests_failed"),
+                "check_exits": exits,
+                "silent": bool(exits) and all(e == 0 for e in exits.values()),
+                "signatures": {k: v.get("signatures", [])[:3] for k, v in r.get("checks", {}).items() if v.get("exit") != 0},
+            }
+            print(name, "silent (as it must be)" if results[name]["silent"] else f"FALSE ALARM {exits} {results[name]['signatures']}", flush=True)
+            json.dump(results, open(path, "w"), indent=1, sort_keys=True)
+            continue
         pid = meta["breaks"]
         p = subprocess.run([os.path.join(VERIF, "tools", "mutant.py"), d, "--props", pid], capture_output=True, text=True)
         try:
